@@ -3,7 +3,83 @@ from mc import sweep
 from mc.lattice import CFG
 
 
+# ---- translucent text over a changing background (histories of two calls in one process)
+ALPHA_TEXTS = [(0, 0, 0), (255, 255, 255), (119, 119, 119)]
+ALPHA_BGS = ["#ffffff", "#000000", "#787878", "#28143c", "rgb(200, 220, 240)"]
+ALPHA_FORMS = ["rgba(%d, %d, %d, %s)", "rgb(%d %d %d / %s)", "rgb(%d, %d, %d, %s)", "%d, %d, %d, %s", "tuple", "rgba(%d %d %d / %s)"]
+ALPHA_CFG = [(m, lg, vr) for m in (0, 1) for lg in (False, True) for vr in (False, True)]
+
+
+def _alpha_value(form, rgb, a):
+    if form == "tuple":
+        return tuple(rgb) + (a,)
+    return form % (rgb + (repr(a),))
+
+
+def _alpha_history(job):
+    """(forked child) the same translucent text value against bg1, then against bg2, every setting."""
+    form, rgb, a, bg1, bg2 = job
+    from cm_colors import ColorPair
+
+    text = _alpha_value(form, tuple(rgb), a)
+    out = []
+    for bg in (bg1, bg2):
+        row = []
+        for mode, lg, vr in ALPHA_CFG:
+            try:
+                row.append(ColorPair(text, bg, large_text=lg).make_readable(mode=mode, very_readable=vr))
+            except Exception as e:  # noqa
+                row.append(("EXC", repr(e)))
+        out.append(row)
+    return out
+
+
+def judge_alpha_history(job):
+    from fractions import Fraction
+    from mc.explore.forked import forked
+    from mc.oracle import css_color, wcag
+
+    form, rgb, a, bg1, bg2 = job
+    case = {"kind": "alpha_history", "job": [form, list(rgb), a, bg1, bg2]}
+    status, rows = forked(_alpha_history, job)
+    if status != "ok":
+        raise RuntimeError("alpha history child failed: %s" % rows)
+    out = []
+    text = _alpha_value(form, tuple(rgb), a)
+    for which, (bg, row) in enumerate(zip((bg1, bg2), rows)):
+        bg_rgb = css_color.read_unique(bg)
+        exact = css_color.blend(rgb, Fraction(repr(a)), bg_rgb)
+        cands = [[c for c in (round(x) - 1, round(x), round(x) + 1) if 0 <= c <= 255 and abs(c - x) <= 1.5] for x in exact]
+        ratios = [wcag.ratio((r, g, b), bg_rgb) for r in cands[0] for g in cands[1] for b in cands[2]]
+        r_min, r_max = min(ratios), max(ratios)
+        for (mode, lg, vr), (val, ok) in zip(ALPHA_CFG, row):
+            if val == "EXC":
+                continue   # C14 / C13
+            need = wcag.minimum(lg, vr)
+            got = css_color.read_unique(val) if not isinstance(val, tuple) else (val if len(val) == 3 else None)
+            if got is None:
+                continue   # C06
+            where = "%r on %r (call %d of the history [%r, %r]) mode=%d large=%s very_readable=%s" % (text, bg, which + 1, bg1, bg2, mode, lg, vr)
+            if r_min >= need + 1e-9:
+                if ok is not True or any(abs(g - x) > 1.5 for g, x in zip(got, exact)):
+                    out.append(dict(sig="harm/readable_translucent_text_changed_or_failed", case=case, observed=[repr(val), ok],
+                                    expected=[[float(x) for x in exact], True],
+                                    msg="%s: the composite %s has ratio >= %.3f >= %.1f but (%r, %s) was returned"
+                                        % (where, [float(x) for x in exact], r_min, need, val, ok)))
+            elif r_max < need - 1e-9 and wcag.ratio(got, bg_rgb) < r_min - 1e-9:
+                out.append(dict(sig="harm/contrast_dropped_translucent_text", case=case, observed=[repr(val), ok], expected=r_min,
+                                msg="%s: ratio of the composite >= %.4f, of the returned %r only %.4f" % (where, r_min, val, wcag.ratio(got, bg_rgb))))
+    return out
+
+
+def chunk_alpha(job):
+    return 1, judge_alpha_history(job)
+
+
 def judge_case(case):
+    if case["kind"] == "alpha_history":
+        j = case["job"]
+        return judge_alpha_history((j[0], tuple(j[1]), j[2], j[3], j[4]))
     if case["kind"] == "pair":
         return sweep.judge_c02(sweep.rec_from_case(case))[0]
     if case["kind"] == "spelled":
@@ -45,6 +121,17 @@ def run(ctx):
         m += 1
     ctx.sub("spelling_layer", states=m, transitions=12 * m, evaluations=12 * m, traces=12 * m, distinct_nontrivial=m, undecidable=und, exhaustive=True)
     ctx.sample({"subcheck": "spelled", "text": repr(jobs[len(jobs) // 3][0]), "bg": repr(jobs[len(jobs) // 3][1])})
+    import itertools
+
+    aj = [(f, t, a, b1, b2) for f in ALPHA_FORMS for t in ALPHA_TEXTS for a in ((0.5,) if ctx.quick else (0.5, 0.6, 0.25))
+          for b1, b2 in itertools.permutations(ALPHA_BGS, 2)]
+    k = 0
+    for cnt, vs in ctx.pmap(chunk_alpha, aj, chunksize=4):
+        k += cnt
+        ctx.add_violations(vs)
+    ctx.sub("translucent_text_background_histories", states=k, transitions=2 * len(ALPHA_CFG) * k, evaluations=2 * len(ALPHA_CFG) * k, traces=k,
+            distinct_nontrivial=k, exhaustive=True, forms=ALPHA_FORMS, backgrounds=ALPHA_BGS)
+    ctx.sample({"subcheck": "alpha_history", "text": "rgb(0 0 0 / 0.5)", "backgrounds": ["#ffffff", "#787878"]})
     from mc.explore import envx_run
 
     envx_run.run(ctx, "C02")
